@@ -28,4 +28,25 @@ theorem validateOutputs_kernel_types :
       [["OutputTypeWithdrawalSubmit", "OutputTypeWithdrawalClaim", "OutputTypeNodePledge",
         "OutputTypeNodeCancel", "OutputTypeNodeAccept"], ["default"]] := by decide
 
+/-- which output types finalization materialises (first case), which it skips (second case);
+    anything else panics: the table `Mixin.Driver.Locks.outKinds` configures the model with -/
+theorem unspentOutputs_table :
+    common_VersionedTransaction_UnspentOutputs_switch.map (·.1) =
+      [["OutputTypeScript", "OutputTypeNodePledge", "OutputTypeNodeCancel", "OutputTypeNodeAccept",
+        "OutputTypeNodeRemove", "OutputTypeWithdrawalClaim", "OutputTypeCustodianUpdateNodes"],
+       ["OutputTypeWithdrawalSubmit", "OutputTypeCustodianSlashNodes"], ["default"]] := by decide
+
+/-- the output types with a side effect in `writeUTXO` (every clause of its switch returns) -/
+theorem writeUTXO_switch_labels :
+    storage_writeUTXO_switch.map (·.1) =
+      [["common.OutputTypeNodePledge"], ["common.OutputTypeNodeCancel"], ["common.OutputTypeNodeAccept"],
+       ["common.OutputTypeNodeRemove"], ["common.OutputTypeCustodianUpdateNodes"],
+       ["common.OutputTypeWithdrawalClaim"]] := by decide
+
+/-- the body of `writeUTXO`: the key relock loop comes first — before the `Set` of the UTXO and
+    before the switch whose clauses all return — so it runs for every materialised output type -/
+theorem writeUTXO_body : storage_writeUTXO_src =
+    "{ for _, k := range utxo.Keys { err := lockGhostKey(txn, k, utxo.Hash, true) if err != nil { return err } } key := graphUtxoKey(utxo.Hash, utxo.Index) val := utxo.Marshal() err := txn.Set(key, val) if err != nil { return err } var signer, payee crypto.Key if len(ver.Extra) >= len(signer) { copy(signer[:], ver.Extra) copy(payee[:], ver.Extra[len(signer):]) } switch utxo.Type { case common.OutputTypeNodePledge: return writeNodePledge(txn, signer, payee, utxo.Hash, timestamp) case common.OutputTypeNodeCancel: return writeNodeCancel(txn, signer, payee, utxo.Hash, timestamp) case common.OutputTypeNodeAccept: return writeNodeAccept(txn, signer, payee, utxo.Hash, timestamp, genesis) case common.OutputTypeNodeRemove: return writeNodeRemove(txn, signer, payee, utxo.Hash, timestamp) case common.OutputTypeCustodianUpdateNodes: return writeCustodianNodes(txn, timestamp, utxo, ver.Extra, genesis) case common.OutputTypeWithdrawalClaim: return writeWithdrawalClaim(txn, ver.References[0], ver.PayloadHash()) } return nil }" := by
+  rfl
+
 end Mixin.Facts.ExpectedC04
